@@ -112,6 +112,35 @@ def check(pid, tier, seed, replay=None):
             v.violation("program %s: %s (valbad=%s jdiff=%s decerr=%s)" % (e["id"], tags, e.get("valbad"), e.get("jdiff"), e.get("decerr", "")[:80]),
                         {"property": pid, "program": byid[e["id"]], "recording": e, "json_build": jout.get(e["id"]),
                          "binary_out_b64": decs.get(e["id"], (None, None))[0], "decoded_b64": decs.get(e["id"], (None, None))[1]})
+        n386 = 0
+        if pid == "C09" and not replay:
+            # the same programs on a 32-bit build of the binary encoder (GOARCH=386 runs on this kernel): what is written does not depend
+            # on the platform's word size - an int64 stays an int64 whatever `int` is. A sample of the programs whose arguments of the
+            # platform-dependent types int / uint fit in 32 bits; the events must be byte-identical to the 64-bit build's
+            def fits32(x):
+                if isinstance(x, dict):
+                    if x.get("t") in ("int", "uint", "[]int", "[]uint"):
+                        vals = ([x["i"]] if "i" in x else []) + list(x.get("is") or [])
+                        if any(not (-(1 << 31) <= int(v) < (1 << 31)) for v in vals):
+                            return False
+                    return all(fits32(y) for y in x.values())
+                if isinstance(x, list):
+                    return all(fits32(y) for y in x)
+                return True
+            cand = [p for p in progs if fits32(p)]
+            sample = cand[:: max(1, len(cand) // (12000 if thorough else 4000))]
+            pb386 = go_build("./players/logger", sc.path("lp-cbor-386"), overlay=ov, tags="binary_log", goarch="386")
+            r386 = run_player(pb386, sc, "cbor386", [json.dumps(p) for p in sample], shards=NCPU, per_script=False)
+            for _, rr in r386:
+                for ln in rr[1:]:
+                    e = json.loads(ln)
+                    if e.get("a") == "Stream" or e["id"] not in decs:
+                        continue
+                    n386 += 1
+                    if e.get("out") != decs[e["id"]][0]:
+                        v.violation("program %s: the 32-bit build of the binary encoder writes other bytes than the 64-bit build (%s / %s)" % (e["id"], (e.get("out") or "")[:60], (decs[e["id"]][0] or "")[:60]),
+                                    {"property": pid, "kind": "386", "program": byid[e["id"]], "out_386_b64": e.get("out"), "out_amd64_b64": decs[e["id"]][0]})
+            log("%s: 32-bit build: %d programs byte-identical check %.0fs" % (pid, n386, time.time() - t0))
         esc = {}
         if pid == "C08" and not replay:
             # "text and []byte with the same escaping": the decoder's own copy of the escaping loop against JsonString.tla
@@ -124,7 +153,7 @@ def check(pid, tier, seed, replay=None):
         nprog = sum(len(x) - 2 for x in shard_lines)
         sample = [json.loads(x[1]) for x in shard_lines[:2] if len(x) > 1]
         cov = {"states": max(1, stats["distinct"]), "transitions": max(1, stats["generated"]), "traces_validated_against_impl": nprog, "samples": sample,
-               "programs_run_under_both_build_tags": nprog, "scalar_values_compared_with_arguments": nval, "rejected_for_sibling_property": other,
+               "programs_run_under_both_build_tags": nprog, "programs_rerun_on_386_build": n386, "scalar_values_compared_with_arguments": nval, "rejected_for_sibling_property": other,
                "known_findings_matched": {k: n for k, (n, _) in v.known.items()}, "escaping": esc, "exhaustive": False,
                "checker_cmd": "tlc EventDocMC.tla (programs); tlc CborTrace.tla (CborWF automaton + ExpectedKeys + projections)"}
         write_evidence(pid, tier, seed, "model_checking", cov, time.time() - t0, len(v.violations),
